@@ -38,7 +38,7 @@ def c10Sources : List (String × String) := [
   ("tensordict/memmap.py:MemoryMappedTensor.from_filename", "8dfaa7568b943a89"),
   ("tensordict/base.py:TensorDictBase.load_memmap_", "fdb521631e21833a"),
   ("tensordict/base.py:TensorDictBase.memmap_refresh_", "badbf115a6cd6d8c"),
-  ("tensordict/memmap.py:MemoryMappedTensor.filename", "24fdb94c7f20159c"),
+  ("tensordict/memmap.py:MemoryMappedTensor.filename", "a9a5fbf22cd5bedd"),
   ("tensordict/tensorclass.py:_memmap_", "23e42771633c6b5c"),
   ("tensordict/tensorclass.py:_from_tensordict", "e426c8f109f0adb9"),
   ("tensordict/tensorclass.py:NonTensorData._memmap_", "a7433415db3d7ac4")
